@@ -935,6 +935,7 @@ def emit_desc(n):
             cstr(S["name"]), S["machine"], S["region"], S["kind"], S["sub"], S["lib_id"], ivec(S["flag_ids"]),
             ivec(S["deferred"]), S["cond_defer"], ivec(S["end_events"]), S["exit_event"], ivec(S["irows"]),
             "true" if S["has_data"] else "false"))
+        w("  d.states.back().lib_id_back = %d;" % S["lib_id_back"])
     for M in n.machines:
         regs = "{" + ", ".join(ivec(r) for r in M["regions"]) + "}"
         w("  d.machines.push_back(DMachine{%s, %d, %d, %s, %s, %s, %s, %d, %s, %d, %s, %s, %s, %s, %s});" % (
@@ -942,6 +943,7 @@ def emit_desc(n):
             M["history"], ivec(M["shallow_events"]), M["switch"], "true" if M["activate_deferred"] else "false",
             "true" if M["has_deferred"] else "false", "true" if M["has_completion"] else "false",
             "true" if M["has_blocking"] else "false", "true"))
+        w("  d.machines.back().states_back = %s;" % ivec(M["states_back"]))
     w("  d.nleaves = %d;" % n.nleaves)
     for l in range(n.nleaves):
         w("  d.leaf_names.push_back(\"g%d\"); d.leaf_is_completion.push_back(%d);" % (l, n.leaf_is_completion[l]))
